@@ -91,6 +91,8 @@ pub struct BoardCtx<'a> {
     /// C06: run the single-component variant oracle on this state? decided by caller
     pub variants_every: u64,
     pub render_all: bool,
+    /// C02: the FEN text of the successors is compared on states whose hash % render_mod == 0
+    pub render_mod: std::sync::atomic::AtomicU64,
     pub transitions: std::sync::atomic::AtomicU64,
     pub states: std::sync::atomic::AtomicU64,
 }
@@ -106,6 +108,7 @@ impl<'a> BoardCtx<'a> {
             collect_hashes: prop == Prop::C06,
             variants_every: 0,
             render_all: false,
+            render_mod: std::sync::atomic::AtomicU64::new(8),
             transitions: Default::default(),
             states: Default::default(),
         }
@@ -390,7 +393,9 @@ fn c02(ctx: &BoardCtx, p: &Pos, fen: &str, b: &mut Bitboard) {
     // the FEN writer (regex re-validation inside) is the expensive part: every successor is
     // compared field by field through the snapshot; the textual rendering is compared on every
     // state in thorough runs and on a deterministic 1/8 of the states in quick runs
-    let render_fen = ctx.render_all || (before.hash % 8 == 0);
+    // the regex-validated writer costs ~40 us per successor: the caller sets, per family, on which
+    // fraction of the states the text is compared (the field comparison runs on all of them)
+    let render_fen = before.hash % ctx.render_mod.load(std::sync::atomic::Ordering::Relaxed).max(1) == 0;
     for rm in &ref_legal {
         let u = || rm.uci();
         let rk = mkey_ref(rm);
